@@ -225,7 +225,11 @@ CE(S, e, ln) ==
       [] e.k = "cassign" ->
            LET v == NamedVar(S, e.x) IN
            EmitVarOp(Emit(CE(EmitVarOp(v.s, v.get, v.a, ln), e.e, ln), BinOps[e.op], ln), v.set, v.a, ln)
-      [] e.k = "call" -> Emit(CEs(CE(S, e.f, ln), e.args, 1, ln), <<Op("Call"), Len(e.args)>>, ln)
+      [] e.k = "call" ->
+           \* the printed text of a call whose callee is a property access is a method invocation (o.m(args) / super.m(args))
+           IF e.f.k = "get" THEN CE(S, [k |-> "inv", o |-> e.f.o, m |-> e.f.m, args |-> e.args], ln)
+           ELSE IF e.f.k = "superget" THEN CE(S, [k |-> "superinv", m |-> e.f.m, args |-> e.args], ln)
+           ELSE Emit(CEs(CE(S, e.f, ln), e.args, 1, ln), <<Op("Call"), Len(e.args)>>, ln)
       [] e.k = "lam" ->
            LET parent == Cur(S)
                S1 == SetCur(S, [parent EXCEPT !.lam = @ + 1])
